@@ -71,3 +71,10 @@ def replay(ctx, case):
         g = DcspInitialize(v) if case["class"] == "DcspInitialize" else BdspInitialize(v, opt_params={"split": case["split"]})
         return int(g.num_qubits) == int(g.definition.num_qubits)
     return replay_eval(ctx, "C11", case)
+
+
+MANIFEST = dict(
+    text='Proof (FULL for widths): declared widths and the add_register allocation count, regenerated from the source, satisfy (s+1)2^(n-s)-1 and 2^n-1 for all n and 1<=s<=n, and s=n uses no ancilla (C11_* theorems). Tie: translator + comparison with gate.num_qubits and definition.num_qubits for every (n,s), n<=7/9. The marginal-distribution claim is evaluated exactly (simulation up to 20/24 qubits).',
+    note='Modelled, not verified: the marginal claim for general split levels (evaluated); tree walk of add_register assumed complete (validated by widths).',
+    technique='Coq proof (geometric sum over Z) on translator-regenerated formulas + translation validation + exact marginal evaluation',
+    design_ref='DESIGN.md section 4, C11')
